@@ -66,6 +66,13 @@ def main():
               "n": d(s="x", n=2, _generated=g1, _source="A"), "s": d(s="y", n=1, _generated=g1, _source="A")}
     same = d(s="x", n=1, _generated=g1, _source="A")
     probes = []
+    turn = [0]
+
+    def entry(what):
+        """alternate between the package-level and the defining module's public name"""
+        turn[0] += 1
+        mod = flow.record if turn[0] % 2 else base
+        return getattr(mod, what, None) or getattr(base, what)
 
     def probe(label):
         try:
@@ -86,12 +93,12 @@ def main():
                 probe(op[1])
                 i += 1
             elif op[0] == "set":
-                base.set_ignored_fields_for_comparison(container(op[1], op[2]))
+                entry("set_ignored_fields_for_comparison")(container(op[1], op[2]))
                 i += 1
             elif op[0] == "enter":
                 nxt = [None]
                 try:
-                    with base.ignore_fields_for_comparison(container(op[1], op[2])):
+                    with entry("ignore_fields_for_comparison")(container(op[1], op[2])):
                         nxt[0] = run(i + 1)
                         if op[3]:
                             raise _Boom()
